@@ -140,8 +140,17 @@ def cert_worker(smt2, nrel, elim, order, timeout_s, bound_mode=False):
         gens = el + sorted(n for n in fvs if n not in el)
         syms = [sympy.Symbol(g) for g in gens]
         den = None
+        rel_rational = False
         try:
-            Gs = [sympy.expand(to_sympy(g)) for g in G]
+            Gs = []
+            for g in G:
+                try:
+                    Gs.append(sympy.expand(to_sympy(g)))
+                except NotImplementedError:
+                    # rational relation: its numerator vanishes wherever the relation holds and its divisors do not
+                    gn, gd = sympy.fraction(sympy.together(to_sympy(g, None, True)))
+                    Gs.append(sympy.expand(gn))
+                    rel_rational = True
             try:
                 Ns = sympy.expand(to_sympy(N))
             except NotImplementedError:
@@ -163,6 +172,14 @@ def cert_worker(smt2, nrel, elim, order, timeout_s, bound_mode=False):
             return {'ok': False, 'why': 'remainder non-zero', 'time': time.time() - t0}
         qz = [from_sympy(x, fvs) for x in q]
         rz = from_sympy(r, fvs) if r != 0 else z3.RealVal(0)
+        if rel_rational:
+            if bound_mode:
+                return {'ok': False, 'why': 'rational relations in bound mode', 'time': time.time() - t0}
+            # use the (polynomial) numerators as relation terms in the identity; soundness of "numerator == 0" is the
+            # caller's side query (all divisors of the relations are non-zero under the hypotheses)
+            G = [from_sympy(gs_, fvs) for gs_ in Gs]
+            if den is None:
+                den = sympy.Integer(1)
         s = z3.Solver()
         s.set('timeout', int(1000 * max(1, timeout_s - (time.time() - t0))))
         if den is None:
